@@ -2,6 +2,9 @@ package props
 
 import (
 	"fmt"
+	"os"
+	"path/filepath"
+	"regexp"
 	"go/ast"
 	"go/token"
 	"go/types"
@@ -127,4 +130,141 @@ func checkLoopIndexBounds(c *core.Ctx, rule string, specs [][2]string) {
 	}
 	c.Floor(rule, 6, "loop-indexed slices of the layout fixer")
 	_ = total
+}
+
+// checkLoopClosures (LOOPCLOSURE): the module's Go version (go.mod: go < 1.22) gives a loop ONE variable per loop, not
+// per iteration. A function literal that mentions a loop variable and outlives the iteration — stored in a map, slice,
+// field or outer variable, started with `go`, or deferred — therefore sees the value of the *last* iteration when it
+// finally runs (every file extension handled by the last plugin the map iteration visited), and a goroutine reads it
+// while the loop writes it. Such a literal needs its own copy (`v := v` inside the loop, or a parameter).
+func checkLoopClosures(c *core.Ctx, rule string, pkgs []string) {
+	p := c.Prog
+	// Go version of the module under analysis
+	if gm, err := os.ReadFile(filepath.Join(p.Root, "go.mod")); err == nil {
+		if m := regexp.MustCompile(`(?m)^go\s+1\.(\d+)`).FindStringSubmatch(string(gm)); m != nil {
+			minor := 0
+			fmt.Sscanf(m[1], "%d", &minor)
+			if minor >= 22 {
+				c.OK(rule, "<go.mod>", 0, 1, "go >= 1.22: loop variables are per iteration")
+				return
+			}
+		}
+	}
+	loops, lits := 0, 0
+	for _, fn := range p.AllFuncs(pkgs...) {
+		info := fn.Info()
+		name := p.FName(fn)
+		core.WalkStack(fn.Decl.Body, func(nd ast.Node, stack []ast.Node) bool {
+			lit, ok := nd.(*ast.FuncLit)
+			if !ok {
+				return true
+			}
+			// loop variables of every enclosing loop (within this function, not beyond an enclosing literal)
+			vars := map[types.Object]ast.Stmt{}
+			for i := len(stack) - 1; i >= 0; i-- {
+				if _, isLit := stack[i].(*ast.FuncLit); isLit {
+					break
+				}
+				switch x := stack[i].(type) {
+				case *ast.RangeStmt:
+					if x.Tok == token.DEFINE {
+						for _, e := range []ast.Expr{x.Key, x.Value} {
+							if id, ok := e.(*ast.Ident); ok && id.Name != "_" {
+								if o := info.Defs[id]; o != nil {
+									vars[o] = x
+								}
+							}
+						}
+					}
+				case *ast.ForStmt:
+					if as, ok := x.Init.(*ast.AssignStmt); ok && as.Tok == token.DEFINE {
+						for _, l := range as.Lhs {
+							if id, ok := l.(*ast.Ident); ok {
+								if o := info.Defs[id]; o != nil {
+									vars[o] = x
+								}
+							}
+						}
+					}
+				}
+			}
+			if len(vars) == 0 {
+				return true
+			}
+			loops++
+			var captured []string
+			ast.Inspect(lit.Body, func(m ast.Node) bool {
+				if id, ok := m.(*ast.Ident); ok {
+					if _, isLoopVar := vars[info.Uses[id]]; isLoopVar {
+						dup := false
+						for _, s := range captured {
+							if s == id.Name {
+								dup = true
+							}
+						}
+						if !dup {
+							captured = append(captured, id.Name)
+						}
+					}
+				}
+				return true
+			})
+			if len(captured) == 0 {
+				return true
+			}
+			lits++
+			// does the literal outlive the iteration?
+			how := ""
+			parent := stack[len(stack)-1]
+			switch pr := parent.(type) {
+			case *ast.AssignStmt:
+				for i, r := range pr.Rhs {
+					if r != ast.Expr(lit) || i >= len(pr.Lhs) {
+						continue
+					}
+					switch l := pr.Lhs[i].(type) {
+					case *ast.IndexExpr:
+						how = "stored in " + core.ExprStr(l.X)
+					case *ast.SelectorExpr:
+						how = "stored in " + core.ExprStr(l)
+					case *ast.Ident:
+						if o := info.Uses[l]; o != nil {
+							for _, loop := range vars {
+								if o.Pos() < loop.Pos() || o.Pos() > loop.End() {
+									how = "stored in " + l.Name + ", declared outside the loop"
+								}
+							}
+						}
+					}
+				}
+			case *ast.KeyValueExpr, *ast.CompositeLit:
+				how = "stored in a composite value"
+			case *ast.CallExpr:
+				if pr.Fun == ast.Expr(lit) {
+					// called on the spot: `go func(){…}()` / `defer func(){…}()` / plain call
+					if len(stack) >= 2 {
+						switch stack[len(stack)-2].(type) {
+						case *ast.GoStmt:
+							how = "started as a goroutine"
+						case *ast.DeferStmt:
+							how = "deferred until the function returns"
+						}
+					}
+				} else if core.ExprStr(pr.Fun) == "append" {
+					how = "appended to a slice"
+				}
+			case *ast.ReturnStmt:
+				how = "returned"
+			}
+			if how == "" {
+				return true
+			}
+			c.SawFunc(name)
+			c.Bad(rule, fmt.Sprintf("%s/closure over %s", name, strings.Join(captured, ", ")), lit.Pos(), 1,
+				fmt.Sprintf("a function literal that uses the loop variable(s) %s is %s; with this module's Go version all iterations share one variable, so when the literal runs it sees the last iteration's value (and a goroutine reads it while the loop writes it) — copy the variable inside the loop", strings.Join(captured, ", "), how))
+			return true
+		})
+	}
+	c.OK(rule, "function literals inside loops in "+strings.Join(pkgs, ", "), 0, loops, fmt.Sprintf("%d literals inside loops, %d mention a loop variable; the escaping ones are reported", loops, lits))
+	c.Floor(rule, 1, "literals scanned")
 }
